@@ -370,3 +370,135 @@ def evaluate_exact(led, rid, ctx):
                   "exact on all %d domains over %s" % (len(doms), U),
                   "evaluate_predicate %s" % (bad or "has no decidable path for this variant"))
     led.floor(rid, "variants of evaluate_predicate", n, 4)
+
+
+# ---------------------------------------------------------------------------------------------
+# every three-valued evaluator of a predicate is sound
+
+def _closure_value(lib, e, leaf, depth=0):
+    """value of `call(&closure, (args))` by evaluating the closure's path summaries"""
+    if depth > 3:
+        raise Unknown("closure nesting")
+    clo = e.b[0]
+    while clo.k in ("ref", "cast"):
+        clo = clo.a if clo.k == "ref" else clo.b
+    if clo.k != "closure":
+        raise Unknown(show(e)[:60])
+    g = lib.fns.get(clo.a)
+    if g is None:
+        raise Unknown("closure body")
+    caps = clo.b or []
+    tup = e.b[1] if len(e.b) > 1 else None
+    while tup is not None and tup.k in ("ref", "cast"):
+        tup = tup.a if tup.k == "ref" else tup.b
+    args = tup.a if tup is not None and tup.k in ("tuple", "array") else ([tup] if tup is not None else [])
+
+    def gl(x):
+        if x.k == "arg" and x.a >= 2 and x.a - 2 < len(args):
+            return ev(args[x.a - 2], leaf)
+        if x.k == "proj" and x.a.k == "arg" and x.a.a == 1:
+            fs = [p["field"] for p in x.b if "field" in p]
+            if fs and fs[0] < len(caps):
+                return ev(caps[fs[0]], leaf)
+        if x.k == "call" and x.a.name in ("call", "call_mut", "call_once"):
+            return _closure_value(lib, x, gl, depth + 1)
+        return leaf(x)
+    for p in SymExec(g, max_paths=64).run():
+        if p.diverged or p.ret is None:
+            continue
+        if feasible(p.conds, gl):
+            return ev(p.ret, gl)
+    raise Unknown("no feasible path in closure")
+
+
+def evaluators_sound(led, rid, ctx):
+    """DISCOVERED by signature: every function that takes a Predicate and returns Option<bool> is a
+    three-valued evaluator.  On every domain over a 5-value universe and every constant:
+    Some(true) only if all values of the domain satisfy the predicate, Some(false) only if none
+    does.  Functions that merely forward to another evaluator are covered through their callee."""
+    import itertools
+    lib = ctx.lib
+    U = list(range(-2, 3))
+    doms = [set(s) for k in range(1, len(U) + 1) for s in itertools.combinations(U, k)]
+    n = 0
+    for f in sorted(lib.fns.values(), key=lambda g: g.defn):
+        if "/tests" in f.file or f.kind == "Closure" or "Option<bool>" not in (f.rec.get("ret") or ""):
+            continue
+        pk = [i + 1 for i, a in enumerate(f.args) if is_pred_adt(a["ty"].lstrip("&").strip())]
+        if len(pk) != 1:
+            continue
+        base = "arg%d" % pk[0]
+        paths = [p for p in SymExec(f, max_paths=400).run() if not p.diverged and p.ret is not None]
+        if paths and all(peel(p.ret, calls=None).k == "call" for p in paths):
+            continue                                    # a forwarder
+        n += 1
+        bad = None
+        decided = 0
+        for D in doms:
+            lo, hi = min(D), max(D)
+            for c in range(-3, 4):
+                def leaf(e, D=D, c=c, lo=lo, hi=hi):
+                    fl = _field(e)
+                    if fl is not None and fl[0].lstrip("*&") == base and fl[2] != "domain_id":
+                        return c
+                    if e.k == "call":
+                        nm = e.a.name
+                        if nm in ("lower_bound", "get_lower_bound", "lower_bound_at_root"):
+                            return lo
+                        if nm in ("upper_bound", "get_upper_bound", "upper_bound_at_root"):
+                            return hi
+                        if nm in ("contains", "is_value_in_domain") and e.b:
+                            return int(ev(e.b[-1], leaf) in D)
+                        if nm in ("is_fixed", "is_domain_assigned"):
+                            return int(lo == hi)
+                        if nm in ("call", "call_mut", "call_once"):
+                            return _closure_value(lib, e, leaf)
+                    return None
+                for p in paths:
+                    vs = _variants(f, p)
+                    iv = None
+                    for k_, v_ in vs.items():
+                        if k_.lstrip("*&") == base:
+                            iv = v_
+                    if iv is None or iv not in ("LowerBound", "UpperBound", "NotEqual", "Equal"):
+                        continue
+                    skip = False
+                    for cond, val, others in p.conds:
+                        if cond.k != "discr" or is_pred_adt(cond.b):
+                            continue
+                        pl = peel(cond.a, calls=None)
+                        if pl.k == "call" and pl.a.name.startswith("get_assigned"):
+                            w = 1 if lo == hi else 0            # Option: Some iff the variable is fixed
+                            if (val is not None and w != val) or (val is None and w in (others or [])):
+                                skip = True
+                        else:
+                            skip = True                         # a discriminant this rule cannot value
+                    if skip:
+                        continue
+                    try:
+                        if not feasible(p.conds, leaf):
+                            continue
+                    except Unknown:
+                        continue
+                    r = peel(p.ret, calls=None)
+                    if not (r.k == "agg" and (r.a or "").endswith("Option")):
+                        continue
+                    if r.b == "None":
+                        decided += 1
+                        continue
+                    try:
+                        val = ev(r.c[0], leaf)
+                    except Unknown:
+                        continue
+                    decided += 1
+                    sat = [holds(iv, c, x) for x in D]
+                    if (val and not all(sat)) or (not val and any(sat)):
+                        bad = bad or ("answers Some(%s) for [x %s %d] on the domain %s although %s"
+                                      % ("true" if val else "false", iv, c, sorted(D),
+                                         "x=%d violates it" % [x for x in sorted(D) if not holds(iv, c, x)][0] if val
+                                         else "x=%d satisfies it" % [x for x in sorted(D) if holds(iv, c, x)][0]))
+        who = f.defn.rsplit("::", 2)
+        led.check(bad is None and decided > 0, rid, "evaluator:%s::%s" % (who[-2], who[-1]), f.span,
+                  "%d (domain, constant, path) rows sound" % decided,
+                  "%s::%s %s" % (who[-2], who[-1], bad or "has no row that could be decided"))
+    led.floor(rid, "three-valued predicate evaluators", n, 1)
